@@ -39,11 +39,17 @@ var weirdVocab = []string{"p", "r", "t", "tbl", "tr", "tc", "pPr", "rPr", "tblPr
 	"drawing", "inline", "anchor", "graphic", "graphicData", "pic", "blipFill", "blip", "sdt", "sdtContent", "sdtPr", "sdtEndPr", "docPartObj", "placeholder", "docPart", "hyperlink", "ins", "smartTag",
 	"bookmarkStart", "bookmarkEnd", "jc", "b", "sz", "spacing", "ind", "numPr", "ilvl", "numId", "pBdr", "tabs", "tab", "br", "fldChar", "instrText",
 	"gridSpan", "vMerge", "tcW", "pgSz", "pgMar", "headerReference", "body", "document", "unknownX", "AlternateContent", "Choice", "positionH", "align",
-	"wrapTight", "wrapPolygon", "lineTo", "extent", "docPr", "nvPicPr", "cNvPicPr", "picLocks", "spPr", "xfrm", "off", "ext", "stretch"}
+	"wrapTight", "wrapPolygon", "lineTo", "extent", "docPr", "nvPicPr", "cNvPicPr", "picLocks", "spPr", "xfrm", "off", "ext", "stretch",
+	"oMath", "oMathPara", "oMathParaPr", "f", "num", "den"}
 
 var sensibleKids = map[string][]string{
 	"body": {"p", "p", "p", "tbl", "sectPr", "bookmarkStart", "sdt"},
-	"p":    {"pPr", "r", "r", "r", "hyperlink", "bookmarkStart"},
+	"p":    {"pPr", "r", "r", "r", "hyperlink", "bookmarkStart", "oMath", "oMathPara"},
+	"oMathPara": {"oMathParaPr", "oMath", "oMath"},
+	"oMath":     {"r", "f", "t", "oMath"},
+	"f":         {"num", "den"},
+	"num":       {"r"},
+	"den":       {"r"},
 	"r":    {"rPr", "t", "t", "br", "drawing", "fldChar", "instrText"},
 	"tbl":  {"tblPr", "tblGrid", "tr", "tr"},
 	"tr":   {"trPr", "tc", "tc", "tc"},
@@ -118,6 +124,10 @@ func (g *weirdGen) elem(name string, depth int) {
 	g.budget--
 	r := g.r
 	pfx := "w:"
+	switch name {
+	case "oMath", "oMathPara", "oMathParaPr", "f", "num", "den":
+		pfx = "m:"
+	}
 	if r.chance(5) {
 		pfx = []string{"", "x:", "w14:"}[r.intn(3)]
 	}
@@ -129,6 +139,11 @@ func (g *weirdGen) elem(name string, depth int) {
 	g.b.WriteString(">")
 	if name == "t" || name == "instrText" || name == "align" || r.chance(8) {
 		g.b.WriteString(xmlEsc(rtTexts[r.intn(len(rtTexts))]))
+	}
+	if name == "oMath" && r.chance(40) {
+		// what the reader copies verbatim: comments, CDATA, references, processing instructions, non-ASCII
+		g.b.WriteString([]string{"<!-- a < b -->", "<![CDATA[a<b]]>", "&amp;&#65;&lt;", "<?pi x?>", "é中", " \n\t "}[r.intn(6)])
+		g.feats["formula with comment, CDATA, reference or non-ASCII content"]++
 	}
 	n := r.intn(4)
 	for i := 0; i < n && g.budget > 0; i++ {
@@ -198,12 +213,16 @@ func genMainPart(r *rng, feats map[string]int, tier string) ([]byte, string) {
 		feats["main part: extreme nesting or repetition"]++
 		return []byte(b.String()), label
 	}
+	if r.chance(8) {
+		g.b.WriteString("\xef\xbb\xbf")
+		label += ", byte order mark"
+	}
 	g.b.WriteString(`<?xml version="1.0" encoding="UTF-8" standalone="yes"?>` + "\n")
 	rootOpen := root
 	if strings.HasPrefix(root, "w:") {
-		g.b.WriteString("<" + rootOpen + ` xmlns:w="` + ns + `" xmlns:r="http://schemas.openxmlformats.org/officeDocument/2006/relationships" xmlns:x="urn:x" xmlns:w14="http://schemas.microsoft.com/office/word/2010/wordml">`)
+		g.b.WriteString("<" + rootOpen + ` xmlns:w="` + ns + `" xmlns:r="http://schemas.openxmlformats.org/officeDocument/2006/relationships" xmlns:x="urn:x" xmlns:w14="http://schemas.microsoft.com/office/word/2010/wordml" xmlns:m="http://schemas.openxmlformats.org/officeDocument/2006/math">`)
 	} else {
-		g.b.WriteString("<" + rootOpen + ` xmlns="` + ns + `" xmlns:w="` + ns + `" xmlns:r="http://schemas.openxmlformats.org/officeDocument/2006/relationships" xmlns:x="urn:x" xmlns:w14="urn:w14">`)
+		g.b.WriteString("<" + rootOpen + ` xmlns="` + ns + `" xmlns:w="` + ns + `" xmlns:r="http://schemas.openxmlformats.org/officeDocument/2006/relationships" xmlns:x="urn:x" xmlns:w14="urn:w14" xmlns:m="http://schemas.openxmlformats.org/officeDocument/2006/math">`)
 	}
 	switch r.pick([]int{70, 8, 8, 8, 6}) {
 	case 0:
@@ -712,6 +731,10 @@ func countElements(els []interface{}, c *bodyCounts) {
 		case document.Run:
 			c.sdtRuns++
 		case *document.Paragraph:
+			c.bodyP++
+			c.runs += len(x.Runs)
+		case *document.MathParagraph:
+			// a body-level w:p that holds a formula
 			c.bodyP++
 			c.runs += len(x.Runs)
 		case *document.Table:
